@@ -1058,15 +1058,12 @@ func (ex *Exec) exec(fr *Frame, ins ssa.Instruction) *PanicV {
 				fr.env[i] = TupleV{c.Bool(false), ex.zeroValue(mt.At(1).Type()), ex.zeroValue(mt.At(2).Type())}
 			}
 		} else {
-			// string iteration by runes: only ASCII/concrete bytes < 0x80 supported
+			// string iteration decodes UTF-8 (invalid sequences yield U+FFFD and advance by one byte)
 			n := ex.concretize(it.str.len, ex.eng.maxConcretize, "string length")
 			if it.pos < n {
-				b := ex.sel(it.str.node, c64(c, uint64(it.pos)))
-				if !ex.branch(c.Ult(b, c.BVConst(0x80, 8))) {
-					ex.unsupported("range over non-ASCII string")
-				}
-				fr.env[i] = TupleV{c.Bool(true), c64(c, uint64(it.pos)), c.ZExt(b, 32)}
-				it.pos++
+				r, sz := ex.decodeRune(it.str, it.pos, n)
+				fr.env[i] = TupleV{c.Bool(true), c64(c, uint64(it.pos)), r}
+				it.pos += sz
 			} else {
 				fr.env[i] = TupleV{c.Bool(false), c64(c, 0), c.BVConst(0, 32)}
 			}
@@ -1087,6 +1084,61 @@ func (ex *Exec) exec(fr *Frame, ins ssa.Instruction) *PanicV {
 		ex.unsupported("instruction %T in %s", ins, fr.fn)
 	}
 	return nil
+}
+
+// decodeRune decodes one UTF-8 sequence of s at byte offset pos (n = len(s)), forking on
+// the byte classes exactly as utf8.DecodeRuneInString does.
+func (ex *Exec) decodeRune(s StringV, pos, n int) (*Term, int) {
+	c := ex.ctx
+	at := func(k int) *Term { return ex.sel(s.node, c64(c, uint64(pos+k))) }
+	k8 := func(v uint64) *Term { return c.BVConst(v, 8) }
+	in := func(b *Term, lo, hi uint64) bool {
+		return ex.branch(c.And(c.Ule(k8(lo), b), c.Ule(b, k8(hi))))
+	}
+	z := func(b *Term, mask uint64) *Term { return c.ZExt(c.BAnd(b, k8(mask)), 32) }
+	sh := func(t *Term, k uint64) *Term { return c.Shl(t, c.BVConst(k, 32)) }
+	bad := c.BVConst(0xFFFD, 32)
+	b0 := at(0)
+	if ex.branch(c.Ult(b0, k8(0x80))) {
+		return c.ZExt(b0, 32), 1
+	}
+	if in(b0, 0xC2, 0xDF) {
+		if n-pos >= 2 && in(at(1), 0x80, 0xBF) {
+			return c.BOr(sh(z(b0, 0x1F), 6), z(at(1), 0x3F)), 2
+		}
+		return bad, 1
+	}
+	if in(b0, 0xE0, 0xEF) {
+		if n-pos < 3 {
+			return bad, 1
+		}
+		lo, hi := uint64(0x80), uint64(0xBF)
+		if ex.branch(c.Eq(b0, k8(0xE0))) {
+			lo = 0xA0
+		} else if ex.branch(c.Eq(b0, k8(0xED))) {
+			hi = 0x9F
+		}
+		if in(at(1), lo, hi) && in(at(2), 0x80, 0xBF) {
+			return c.BOr(c.BOr(sh(z(b0, 0x0F), 12), sh(z(at(1), 0x3F), 6)), z(at(2), 0x3F)), 3
+		}
+		return bad, 1
+	}
+	if in(b0, 0xF0, 0xF4) {
+		if n-pos < 4 {
+			return bad, 1
+		}
+		lo, hi := uint64(0x80), uint64(0xBF)
+		if ex.branch(c.Eq(b0, k8(0xF0))) {
+			lo = 0x90
+		} else if ex.branch(c.Eq(b0, k8(0xF4))) {
+			hi = 0x8F
+		}
+		if in(at(1), lo, hi) && in(at(2), 0x80, 0xBF) && in(at(3), 0x80, 0xBF) {
+			return c.BOr(c.BOr(c.BOr(sh(z(b0, 0x07), 18), sh(z(at(1), 0x3F), 12)), sh(z(at(2), 0x3F), 6)), z(at(3), 0x3F)), 4
+		}
+		return bad, 1
+	}
+	return bad, 1
 }
 
 func (ex *Exec) prepareCall(fr *Frame, call *ssa.CallCommon) (Value, []Value) {
